@@ -109,6 +109,36 @@ class Ctx:
         self.solver_s += secs
 
     # ---- violations --------------------------------------------------
+    def probe(self, key: str, description: str, script: str) -> bool:
+        """a further concrete point for an obligation the solver left undecided (spurious model / unknown): replayed like a candidate; a
+        point that reproduces is a violation like any other, one that does not changes nothing (the obligation stays inconclusive)"""
+        os.makedirs(os.path.join(ROOT, "replays"), exist_ok=True)
+        h = hashlib.sha1((key + script).encode()).hexdigest()[:10]
+        path = os.path.join(ROOT, "replays", f"{self.pid}-{h}.json")
+        with open(path, "w") as f:
+            json.dump({"property": self.pid, "key": key, "description": description, "script": script, "extra": "probe"}, f, indent=1, default=str)
+        self.replays += 1
+        ok, _out = run_replay(path, timeout=60)
+        if not ok:
+            try:
+                os.remove(path)
+            except OSError:
+                pass
+            return False
+        for k in self.known:
+            if k.get("status", "known") == "known" and k["key"] == key:
+                self.known_hits.append(key)
+                self.log(f"KNOWN-FINDING: property={self.pid} {key}: {k.get('what', description)}")
+                self.obl.append((key, "known-finding"))
+                self.verdicts["known_finding"] += 1
+                return True
+        self.violations.append({"key": key, "description": description, "replay": path})
+        self.verdicts["violation"] += 1
+        self.obl.append((key, "violation"))
+        self.log(f"VIOLATION property={self.pid} replay={path}")
+        self.log(f"  key={key}: {description}")
+        return True
+
     def violation(self, key: str, description: str, script: str, extra=None) -> bool:
         """Register a candidate violation.  `script` is a standalone Python
         program that exits 1 (printing REPRODUCED) iff the violation shows on
